@@ -401,3 +401,70 @@ func isNamedPtr(t types.Type, name string) bool {
 	n, ok := p.Elem().(*types.Named)
 	return ok && n.Obj().Name() == name
 }
+
+// R02.9: the operator of an expression is fixed by its source token (R02.1). Outside the AST
+// builder no statement gives a node another operator action, nor another operator generator:
+// rewriting !(a < b) into a >= b, or a - b into a + (-b), is not value-preserving for every
+// operand (NaN, wrap-around, -0). Operator actions/generators are those R02.1/R02.2 map from
+// Go operator tokens.
+func (x *c02ctx) r9() {
+	ic, r := x.ic, x.r
+	actionFld := ic.field("node", "action")
+	genFld := ic.field("node", "gen")
+	if actionFld == nil || genFld == nil {
+		r.Errorf("anchor not resolved: node.action / node.gen")
+		return
+	}
+	opAction := map[string]bool{}
+	opGen := map[*types.Func]string{}
+	for a := range x.srcToken {
+		opAction[x.actName[a]] = true
+		if f := x.builtin[a]; f != nil {
+			opGen[f] = x.actName[a]
+		}
+	}
+	if len(opAction) < 30 {
+		r.Errorf("R02.9: only %d operator actions known", len(opAction))
+		return
+	}
+	nAssign := 0
+	bad := 0
+	for _, name := range sortedKeys(ic.F) {
+		fi := ic.F[name]
+		if fi.Decl.Body == nil || name == "Interpreter.ast" {
+			continue
+		}
+		ast.Inspect(fi.Decl.Body, func(n ast.Node) bool {
+			as, ok := n.(*ast.AssignStmt)
+			if !ok || len(as.Lhs) != len(as.Rhs) {
+				return true
+			}
+			for i, l := range as.Lhs {
+				switch selField(ic.Info, l) {
+				case actionFld:
+					nAssign++
+					if id, ok := unparen(as.Rhs[i]).(*ast.Ident); ok {
+						if c, ok := ic.Info.Uses[id].(*types.Const); ok && opAction[c.Name()] {
+							bad++
+							r.Fail("R02.9", name+"/operator-action-rewritten:"+c.Name(), ic.pos(as.Pos()), "function "+name+" assigns the operator action "+c.Name()+" to a node ("+types.ExprString(l)+"): the operator of an expression is no longer the one of its source token, and such rewrites are not value-preserving for every operand (for NaN operands !(a < b) is true while a >= b is false)")
+						}
+					}
+				case genFld:
+					if id, ok := unparen(as.Rhs[i]).(*ast.Ident); ok {
+						if f, ok := ic.Info.Uses[id].(*types.Func); ok && opGen[f] != "" {
+							bad++
+							r.Fail("R02.9", name+"/operator-generator-rewritten:"+f.Name(), ic.pos(as.Pos()), "function "+name+" installs the operator generator "+f.Name()+" on a node directly, bypassing the action table: the node computes another operator than its source token")
+						}
+					}
+				}
+			}
+			return true
+		})
+	}
+	if nAssign < 5 {
+		r.Errorf("R02.9: only %d assignments to node.action found outside the AST builder (aConvert, aGetSym, aMethod, aBranch, aGetMethod expected)", nAssign)
+	}
+	if bad == 0 {
+		r.Pass("R02.9", "operator-actions/set-by-the-ast-builder-only", "", fmt.Sprintf("%d assignments to node.action outside (*Interpreter).ast, none of an operator action; no operator generator installed directly", nAssign))
+	}
+}
